@@ -83,11 +83,11 @@ CHECKS = {
         text="ncrypt_protect_secret -> (optional re-pack to the trailing layout) -> ncrypt_unprotect_secret (and the async twins) are executed end to end, offline, with symbolic "
              "plaintext content, 64 symbolic root-key bytes and a symbolic clock inside windows containing L2/L1/L0 boundaries, against ideal KDF/AEAD/key-wrap/RNG stubs; on "
              "every path z3 proves the returned bytes equal the plaintext symbols and no path ends in an exception. Nonce mode (4 hashes, listed plaintext lengths and SIDs, same or fresh "
-             "KeyCache) and public-key mode (DH / ECDH_P256 / ECDH_P384, the harness plays the DC; decrypted by a root-key holder); also decryption by a process that only holds a DC-issued envelope for one of 12 later positions, and a round trip whose plaintext LENGTH is a solver variable (every DER length-form boundary).",
+             "KeyCache) and public-key mode (DH / ECDH_P256 / ECDH_P384, the harness plays the DC; decrypted by a root-key holder); also decryption by a process that only holds a DC-issued envelope for one of 12 later positions, a history of two protects at different instants on one cache followed by decryption with that cache and a fresh one, and a round trip whose plaintext LENGTH is a solver variable (every DER length-form boundary).",
         note="Trusted: interpreter, z3, the ideal-primitive contracts (incl. no collisions between distinct outputs). Bit-level crypto, clock instants outside the windows "
              "(composed from C09 and C02), unlisted lengths/SIDs and P521 are outside this check's claim."),
     "C19": dict(
-        text="2..4 consecutive protect calls (identical or different arguments, one unprotect interleaved) and histories of 34 (thorough 130, 260) calls are executed in one path "
+        text="2..4 consecutive protect calls (identical or different arguments, one unprotect interleaved), histories of 34 (thorough 130, 260) calls, and a fork history (module-level state captured after one call; parent and child continue from it) are executed in one path "
              "against an RNG stub that tags every draw; z3 proves that each emitted blob's GCM nonce, content-encryption key (recovered through the key-wrap record) and "
              "key-identifier nonce are RNG output (a draw made at any earlier point of the history, or a contiguous slice of one) and that the pieces of RNG output used by all "
              "blobs and roles are pairwise disjoint; in public-key mode (DH, P256, P384, P521; with and without an explicit root key id on one cache) the ephemeral public key must "
@@ -126,7 +126,7 @@ CHECKS = {
     "C17": dict(
         text="The public sync and async APIs are executed end to end against a reference domain controller written in the harness (own PDU / NDR64 / tower / MS-GKDI decoders and "
              "encoders, ideal security context, ideal KDF/AEAD/DH): the DC checks every PDU of the conversation (EPM bind + ept_map for the ISD_KEY tower, connection to the returned "
-             "symbolic port (every port of each decimal digit count, echoed as the bind_ack secondary address), with auth_protocol negotiate / ntlm / kerberos, authenticated bind, PKT_PRIVACY-sealed GetKey with the ISD_KEY/NDR64 verification trailer), the decoded request must name exactly the key the blob / "
+             "symbolic port (every port of each decimal digit count, echoed as the bind_ack secondary address), with auth_protocol negotiate / ntlm / kerberos, replies delivered in TCP segments, authenticated bind, PKT_PRIVACY-sealed GetKey with the ISD_KEY/NDR64 verification trailer), the decoded request must name exactly the key the blob / "
              "caller asked for, the result must decrypt, and the sync and async transcripts must be byte-wise equal.",
         note="Trusted: interpreter, z3, the reference DC and stubs. One GetKey per run; blob positions from a 3x3 corner set, listed SIDs/hashes; real NTLM/Kerberos, sockets and "
              "Windows are outside the technique."),
